@@ -118,7 +118,16 @@ OnEnd == /\ Line.ev = "end"
               })
          /\ UNCHANGED <<s, sc, lobs, oseen, oopi, failed>>
 
-Next == l <= Len(Lines) /\ l' = l + 1 /\ (OnReset \/ OnInit \/ OnStep \/ OnBlocked \/ OnEnd)
+\* after the run: a clean restart shows the state the handle showed (the log tells the same story as the memory),
+\* and every key is readable
+OnFinal == /\ Line.ev = "final"
+           /\ Report(UNION {
+                 Fail(Line.res.ok, "C04:reopen-after-concurrent-run-failed-" \o Line.res.err),
+                 Fail(~Line.res.ok \/ ~Line.before.has_idx \/ Line.idx = Line.before.idx, "C05:restart-after-concurrent-run-changed-the-state"),
+                 Fail(~Line.res.ok \/ failed \/ Line.get = Line.idx, "C04:unreadable-after-restart") })
+           /\ UNCHANGED <<s, sc, lobs, oseen, oopi, failed>>
+
+Next == l <= Len(Lines) /\ l' = l + 1 /\ (OnReset \/ OnInit \/ OnStep \/ OnBlocked \/ OnEnd \/ OnFinal)
 Spec == Init /\ [][Next]_vars
 AllConsumed == IF TLCGet("stats").diameter - 1 = Len(Lines) THEN TRUE
                ELSE PrintT("UNCONSUMED@" \o ToString(TLCGet("stats").diameter) \o "@" \o ToString(Len(Lines))) /\ FALSE
